@@ -1,6 +1,7 @@
 package checks
 
 import (
+	"bytes"
 	"fmt"
 	"os"
 	"path/filepath"
@@ -24,7 +25,7 @@ type CloseCase struct {
 	Cycles int       `json:"cycles,omitempty"`  // cycles: number of open/close repetitions
 }
 
-const c17Rule = "five generated situations on stores with 1 ms GC and sync intervals (both collectors and the flusher really run): (parked) the cooperative scheduler adopts the store's own background goroutines at their named points, holds one of them at a drawn point inside a GC cycle or a flush, and then issues Close from the foreground task; (timers) free-running activity, a drawn pause, Close; (failopen) OpenStore that must fail (other index/primary file size, the same together with another bit size so that the failure happens inside the index translation, another bit size with an index file missing, garbage or empty header files, unsupported primary type) on an existing store; (cycles) 1-30 open/activity/close repetitions; (faultclose) an environment fault (stray file at the next primary file name, stray directory at the next index file name or at the temporary name of the bucket snapshot) makes the flush or the snapshot inside Close fail - Close may return the error but must still stop everything and release every descriptor. " +
+const c17Rule = "five generated situations on stores with 1 ms GC and sync intervals (both collectors and the flusher really run): (parked) the cooperative scheduler adopts the store's own background goroutines at their named points, holds one of them at a drawn point inside a GC cycle or a flush, and then issues Close from the foreground task (a third of these cases prepare a low-use primary file so that the cycle in progress is one that relocates records); (timers) free-running activity, a drawn pause, Close; (failopen) OpenStore that must fail (other index/primary file size, the same together with another bit size so that the failure happens inside the index translation, another bit size with an index file missing, garbage or empty header files, unsupported primary type) on an existing store; (cycles) 1-30 open/activity/close repetitions; (faultclose) an environment fault (stray file at the next primary file name, stray directory at the next index file name or at the temporary name of the bucket snapshot) makes the flush or the snapshot inside Close fail - Close may return the error but must still stop everything and release every descriptor. " +
 	"oracle = census right after Close (or the failed open) returns: no goroutine with a frame of the module (polled up to 2 s so that goroutines that already signalled completion can finish returning; a goroutine parked at a named point never finishes), no descriptor in /proc/self/fd pointing into the store directory, directory listing with sizes and content hashes unchanged across a pause and after every held goroutine is released, second Close returns nil, a reopen works; counts after N cycles equal the baseline. " +
 	"non-trivial = Close issued while a GC cycle or flush was provably in progress (a background goroutine held at a named point, or point counters advanced within the last pause), an open that did fail, or a Close that did return the injected error; distinct = distinct canonical JSON of the case"
 
@@ -46,6 +47,24 @@ func genClose(t *rapid.T) CloseCase {
 	switch c.Mode {
 	case "parked":
 		c.Point = c17BgPoints[rapid.IntRange(0, len(c17BgPoints)-1).Draw(t, "point")]
+		if weighted(t, "lowuse", []int{2, 1}) == 1 {
+			// A store whose oldest primary file is low-use by the periodic
+			// collector's threshold (85 %): one small survivor next to large
+			// removed records, so that the cycle in progress at Close is one
+			// that relocates.
+			c.Cfg.PrimSize = []uint32{256, 1024}[rapid.IntRange(0, 1).Draw(t, "lowuseprim")]
+			c.Keys = extendKeys(c.Keys, 6)
+			c.Ops = []Op{{K: opPut, Key: 0, VLen: 1}}
+			for k := 1; k < len(c.Keys); k++ {
+				c.Ops = append(c.Ops, Op{K: opPut, Key: k, VLen: 64})
+			}
+			c.Ops = append(c.Ops, Op{K: opFlush})
+			for k := 1; k < len(c.Keys)-1; k++ {
+				c.Ops = append(c.Ops, Op{K: opRemove, Key: k})
+			}
+			c.Ops = append(c.Ops, Op{K: opFlush})
+			c.Point = []string{"pgc.file", "pgc.reap.relocate", "pgc.reap.relocated", "pgc.reap.updated", "pgc.fl.mark", "pgc.freelistDone", "pgc.reap.truncate"}[rapid.IntRange(0, 6).Draw(t, "lowusepoint")]
+		}
 	case "timers":
 		c.WaitUS = rapid.IntRange(0, 4000).Draw(t, "wait")
 	case "failopen":
@@ -151,14 +170,34 @@ func runClose(c CloseCase) (st closeStats, v *Violation) {
 	for _, g := range moduleGoroutines() {
 		baseline[g.id] = true
 	}
+	// What the foreground calls stored (the collectors and the flusher never
+	// change contents): after Close the directory must hold exactly this.
+	model := map[int][]byte{}
+	applied := 0
 	apply := func(s *store.Store, ops []Op) {
-		for i, op := range ops {
-			key := c.Keys[op.Key%len(c.Keys)].Encode(c.Cfg.Primary, false)
+		for _, op := range ops {
+			applied++
+			i := applied
+			k := op.Key % len(c.Keys)
+			key := c.Keys[k].Encode(c.Cfg.Primary, false)
 			switch op.K {
 			case opPut:
-				s.Put(key, valueFor(i, op.VLen, op.VNil))
+				val := valueFor(i, op.VLen, op.VNil)
+				if err := s.Put(key, val); err == nil {
+					if val == nil {
+						val = []byte{}
+					}
+					model[k] = val
+				} else if _, had := model[k]; !had || !c.Cfg.Immutable {
+					model[-1] = nil // a Put failed for another reason than key-exists: contents unknown
+				}
 			case opRemove:
-				s.Remove(key)
+				if ok, err := s.Remove(key); err == nil && ok {
+					delete(model, k)
+				} else if err != nil {
+					model[-1] = nil
+				}
+				continue
 			case opFlush:
 				s.Flush()
 			case opGet:
@@ -217,7 +256,7 @@ func runClose(c CloseCase) (st closeStats, v *Violation) {
 				return st, viol("close-error|second-close|"+errClass(err), 0, "second Close: %v", err)
 			}
 		}
-		return st, nil
+		return st, contentsAfterClose(dir, c, model)
 	case "faultclose":
 		// An environment fault makes the flush inside Close (or the saving of
 		// the bucket table) fail: Close may return the error, but it must
@@ -409,13 +448,52 @@ func runClose(c CloseCase) (st closeStats, v *Violation) {
 	if err := s.Close(); err != nil {
 		return st, viol("close-error|second-close|"+errClass(err), 0, "second Close: %v", err)
 	}
-	// The directory can be reopened.
+	// The directory can be reopened, and holds what was stored.
+	return st, contentsAfterClose(dir, c, model)
+}
+
+// contentsAfterClose reopens the closed directory and compares it with what
+// the foreground calls had stored; then lets one GC cycle of each kind work on
+// it and compares again (a block that Close left on the freelist although the
+// index still names it only disappears when GC applies the freelist).
+func contentsAfterClose(dir string, c CloseCase, model map[int][]byte) *Violation {
 	s3, err := openStore(dir, c.Cfg)
 	if err != nil {
-		return st, viol("reopen-after-close-fails|open|"+errClass(err), 0, "reopen after Close failed: %v", err)
+		return viol("reopen-after-close-fails|open|"+errClass(err), 0, "reopen after Close failed: %v", err)
 	}
-	s3.Close()
-	return st, nil
+	defer closeQuietly(s3)
+	if _, unknown := model[-1]; unknown {
+		return nil
+	}
+	read := func(when string) *Violation {
+		for k, ks := range c.Keys {
+			want, present := model[k]
+			got, found, err := s3.Get(ks.Encode(c.Cfg.Primary, false))
+			switch {
+			case err != nil:
+				return viol("contents-after-close|"+when+"|"+errClass(err), 0, "Get(key %d) on the reopened directory (%s) returned %v", k, when, err)
+			case present && !found:
+				return viol("contents-after-close|"+when+"|absent-but-stored", 0, "key %d was stored (%s) before Close, Close returned nil, but the reopened directory (%s) does not have it", k, shortBytes(want), when)
+			case !present && found:
+				return viol("contents-after-close|"+when+"|present-but-removed", 0, "key %d was not stored at Close but the reopened directory (%s) has %s", k, when, shortBytes(got))
+			case present && !bytes.Equal(got, want):
+				return viol("contents-after-close|"+when+"|other-value", 0, "key %d reads %s on the reopened directory (%s), stored was %s", k, shortBytes(got), when, shortBytes(want))
+			}
+		}
+		return nil
+	}
+	return guard(0, "contents-after-close", func() *Violation {
+		if v := read("after-reopen"); v != nil {
+			return v
+		}
+		s3.Flush()
+		if mp := mhPrimaryOf(s3); mp != nil {
+			mp.GC(bg, 100)
+		}
+		s3.Index().VerifGC(bg, true)
+		s3.Flush()
+		return read("after-reopen-and-gc")
+	})
 }
 
 // closePolicy: let the foreground work finish, then prefer background tasks
